@@ -196,7 +196,7 @@ def _gen_reject_client(r, scale_exp, family):
 
 
 def gen_case(r, index, tier):
-    nclients = r.weighted([(2, 5), (3, 3), (4, 1)])
+    nclients = r.weighted([(2, 5), (3, 3), (4, 1)] if tier != "thorough" else [(2, 3), (3, 4), (4, 3)])
     base = r.choice([-1, 0, 0, 1])
     clients = []
     nvars = r.randint(2, 5)
